@@ -136,6 +136,56 @@ def squared_cases():
     return out
 
 
+SEQ_OPS = [(op, val) for op in ('line-plain', 'line-squared', 'set-plain', 'set-squared') for val in (2.0, 3.0)]
+
+
+def squared_seq_cases(tier):
+    depth = 3 if tier == 'quick' else 4
+    out = []
+    for name in SQ:
+        for k in range(1, depth + 1):
+            for seq in itertools.product(range(len(SEQ_OPS)), repeat=k):
+                out.append(dict(kind='squared-seq', name=name, ops=list(seq)))
+    return out
+
+
+def squared_sequence(case, acc):
+    """One Parameters object driven through a sequence of writes (parameter lines or attribute assignments, plain or squared);
+    both values are read in every state - before the first write and after each one - and compared with a one-variable model."""
+    name = case['name']
+    p = propka.parameters.Parameters()
+    model = getattr(propka.parameters.Parameters(), name)
+    v = []
+
+    def observe(where):
+        plain, sq = getattr(p, name), getattr(p, name + '_squared')
+        acc.extra['states'] += 1
+        if abs(sq - plain * plain) > 1e-12 * max(1.0, sq):
+            v.append(('squared-not-square/after-sequence', '%s after %s: plain=%r squared=%r' % (name, where, plain, sq)))
+        if abs(plain - model) > 1e-12 * max(1.0, model):
+            v.append(('squared-setter/after-sequence', '%s after %s: plain=%r expected %r' % (name, where, plain, model)))
+    observe('construction')
+    done = []
+    for i in case['ops']:
+        op, val = SEQ_OPS[i]
+        done.append('%s(%g)' % (op, val))
+        if op == 'line-plain':
+            p.parse_line('%s %r\n' % (name, val))
+            model = val
+        elif op == 'line-squared':
+            p.parse_line('%s_squared %r\n' % (name, val))
+            model = val ** 0.5
+        elif op == 'set-plain':
+            setattr(p, name, val)
+            model = val
+        else:
+            setattr(p, name + '_squared', val)
+            model = val ** 0.5
+        acc.extra['transitions'] += 1
+        observe(' '.join(done))
+    return v
+
+
 SCALAR_LINES = ['Nmin 123\n', 'model_pkas XYZ 4.25\n', 'acid_list XYZ\n', 'version SimpleHB\n', 'shared_determinants 1\n',
                 'COO_HIS_exception 2.5\n', 'ions QQ 3\n', 'backbone_NH_hydrogen_bond XYZ -0.5 2.0 3.0\n',
                 'protein_group_mapping XYZ-CG COO\n', 'desolvationPrefactor -11.5  # comment\n', '# only a comment\n', '\n']
@@ -150,32 +200,51 @@ def scalar_cases(tier):
 
 
 def plan(tier, seed):
-    cases = matrix_cases(tier) + pair_cases(tier) + squared_cases() + scalar_cases(tier)
+    cases = matrix_cases(tier) + pair_cases(tier) + squared_cases() + squared_seq_cases(tier) + scalar_cases(tier)
     size = 300
     shards = [cases[i:i + size] for i in range(0, len(cases), size)] + [[dict(kind='shipped')]]
     return dict(shards=shards, exhaustive=True,
                 rule=('interaction matrices: all symmetric assignments over {I,N,-} for 1-3 names and over {I,-} for 4 names, '
                       'all row orders (quick: 2 row orders for 4 names); pair cut-offs: all subsets of <= %d of the 6 unordered '
                       'pairs over 3 names, every line order, both orientations of mixed pairs, default line at every position; '
-                      'squared/plain cut-offs: 4 names x 8 values x 4 orders of assignment; scalar/list/dict lines: all ordered '
+                      'squared/plain cut-offs: 4 names x 8 values x 4 orders of assignment, and every sequence of <= %d writes (parameter line or '
+                      'attribute assignment, plain or squared, 2 values) with both values read in every intermediate state; every file also '
+                      'without final newline, with CRLF line ends and with trailing blank lines; scalar/list/dict lines: all ordered '
                       'selections of %d of 12 lines; the shipped file with every created group type. non-trivial = distinct files '
-                      'with at least one look-up') % (3 if tier == 'quick' else 4, 3 if tier == 'quick' else 4),
+                      'with at least one look-up') % (3 if tier == 'quick' else 4, 3 if tier == 'quick' else 4, 3 if tier == 'quick' else 4),
                 bounds=dict(cases=len(cases)), samples=[cases[50], cases[-1]])
 
 
-def read(text, name='p.cfg'):
+FORMATS = ('as-is', 'no-final-newline', 'crlf', 'blank-lines-at-end')
+
+
+def read(text, name='p.cfg', fmt='as-is'):
     path = os.path.abspath(name)
-    with open(path, 'w') as fh:
+    if fmt == 'no-final-newline':
+        text = text.rstrip('\n')
+    elif fmt == 'crlf':
+        text = text.replace('\n', '\r\n')
+    elif fmt == 'blank-lines-at-end':
+        text = text + '\n   \n\n'
+    with open(path, 'w', newline='') as fh:
         fh.write(text)
     return propka.input.read_parameter_file(path, propka.parameters.Parameters())
 
 
 def run_case(case, ctx, acc):
+    if case['kind'] in ('matrix', 'pairs', 'pairs2', 'scalars') and 'fmt' not in case:
+        for fmt in FORMATS:     # the same content written with each line-ending convention
+            run_case(dict(case, fmt=fmt), ctx, acc)
+        return
     k = case['kind']
+    fmt = case.get('fmt', 'as-is')
     v = []
-    if k == 'matrix':
+    if k == 'squared-seq':
+        v += squared_sequence(case, acc)
+        acc.case(nontrivial_key=jhash(case), outcome='squared-seq')
+    elif k == 'matrix':
         text, m = matrix_text(case)
-        p = read(text)
+        p = read(text, fmt=fmt)
         im = p.interaction_matrix
         n = case['n']
         acc.extra['states'] += n
@@ -198,7 +267,7 @@ def run_case(case, ctx, acc):
         acc.case(nontrivial_key=jhash(case), outcome='matrix-%d' % n)
     elif k in ('pairs', 'pairs2'):
         text, ref, default = pair_text(case) if k == 'pairs' else pair2_text(case)
-        p = read(text)
+        p = read(text, fmt=fmt)
         pm = p.sidechain_cutoffs
         names = NAMES[:3]
         acc.extra['states'] += len(case.get('lines', case.get('script', []))) + 1
@@ -238,7 +307,7 @@ def run_case(case, ctx, acc):
         acc.case(nontrivial_key=jhash(case), outcome='squared')
     elif k == 'scalars':
         text = ''.join(SCALAR_LINES[i] for i in case['lines'])
-        p = read(text)
+        p = read(text, fmt=fmt)
         d = propka.parameters.Parameters()
         want = {0: ('Nmin', 123), 1: ('model_pkas', {'XYZ': 4.25}), 2: ('acid_list', ['XYZ']), 3: ('version', 'SimpleHB'),
                 4: ('shared_determinants', 1), 5: ('COO_HIS_exception', 2.5), 6: ('ions', {'QQ': 3.0}),
@@ -257,6 +326,8 @@ def run_case(case, ctx, acc):
         acc.case(nontrivial_key='shipped', outcome='shipped')
     seen = set()
     for ck, what in v:
+        if fmt != 'as-is':
+            ck = ck + '/file-format=' + fmt
         if ck not in seen:
             seen.add(ck)
             acc.viols.append(Viol(case, 'tables', ck, what))
